@@ -252,7 +252,13 @@ type env struct {
 	global map[string]*val
 	local  map[string]*val // nil outside par threads
 	direct bool            // run library calls in the calling goroutine (par threads)
+	after  []func()        // scribbles over the config structs passed by pointer to the command just executed
 }
+
+// later registers a mutation of a caller-owned config struct to be performed straight after the current command:
+// every config the harness passes by pointer is overwritten with garbage once the call has returned, so a library
+// that keeps the caller's pointer (instead of copying the values) behaves differently afterwards.
+func (e *env) later(f func()) { e.after = append(e.after, f) }
 
 func (e *env) lookup(name string) *val {
 	if e.local != nil {
